@@ -40,7 +40,8 @@ EXPLANATION = (
     'right way round), every type gets <T>_validator, every route is emitted with its name, '
     'version, deprecation flag, three validators and attrs, and listed in ROUTES.'
     ' R6 (generator totality, stonelint.totality): python_types can only produce modules if it completes -- IR attribute reads are defined for every reaching class, raises/asserts are unreachable dispatch defaults, doc-tag defaults, configuration conditions or recorded preconditions.'
-    ' RD (decision drift, stonelint.conddrift): the tests of the functions this property is anchored in (stonelint.ownership) are compared with reference/conditions.json; a relation, polarity or connective changed over the same operands, or an operand purely added or dropped, is a violation; re-spellings and new or removed tests are not claimed.')
+    ' RD (decision drift, stonelint.conddrift): the tests of the functions this property is anchored in (stonelint.ownership) are compared with reference/conditions.json; a relation, polarity or connective changed over the same operands, or an operand purely added or dropped, is a violation; re-spellings and new or removed tests are not claimed.'
+    " RE (expression drift, stonelint.exprdrift): the same functions' attribute names, variable reads, simple statements, calls and arithmetic/slice literals are compared with reference/expressions.json; a substituted attribute or variable, a dropped call or assignment, swapped arguments or a changed literal is a violation; any other edit is not claimed.")
 ASSUMPTIONS = [
     'identifiers are not Python reserved words (as the property assumes)',
     'fmt_pascal / fmt_underscores are injective enough on spec identifiers (not decided)',
@@ -422,3 +423,5 @@ def run(pm, ctx):
     from ..conddrift import run_decisions
     from ..ownership import OWN
     run_decisions(pm, ctx, 'C09-RD', OWN['C09'])
+    from .. import exprdrift
+    exprdrift.run(pm, ctx, 'C09-RE', OWN['C09'])
